@@ -23,7 +23,8 @@ IMPORTS_SRC = "From PV Require Import C01.Obs C01.Spec C01.Model C03.Spec C03.Mo
 SRC_TIE_SAMPLE = 700
 MAX_R, MAX_H, MAX_N = 10, 12, 4
 SRC_THEOREMS = ["c03_source_loop_body_is_mask_step", "c03_source_loop_is_masks_loop", "c03_source_mask_is_model",
-                "c03_source_mask_marks_preserving_tokens"]
+                "c03_source_string_matching_mask_is_model", "c03_source_mask_marks_preserving_tokens",
+                "c03_source_optimal_completion_is_model", "c03_source_optimal_completion_rows_correct"]
 
 
 def _scale(case):
@@ -95,7 +96,8 @@ def source_tie(chk, cases, outs):
         idx = [idx[int(j * step)] for j in range(SRC_TIE_SAMPLE)]
     chk.extra["source_tie"] = {
         "unit": "C03Src", "theorems": SRC_THEOREMS,
-        "what": "_string_matching(return_mask=True) of _string.py, translated on every run, interpreted in Coq"}
+        "what": "_string_matching(return_mask=True) and the whole body of optimal_completion (_string.py), translated on "
+                "every run, interpreted in Coq (PV.C03.SrcRun.src_mask_check / src_oc_check)"}
     if not idx:
         chk.extra["source_tie_run"] = {"cases": 0, "disagreements": 0}
         return
